@@ -949,7 +949,7 @@ pub fn chain_child(depth: usize) {
         (Ok(x), Ok(y)) => {
             println!("{}", json!({"ok": true, "same": x.out.code == y.out.code}));
         }
-        (Err(e), _) => println!("{}", json!({"ok": false, "err": e.chars().take(200).collect::<String>()})),
+        (Err(e), _) => println!("{}", json!({"ok": false, "err": e.chars().take(200).collect::<String>(), "deep": e.contains("Macros nested deeper than")})),
         (_, Err(e)) => println!("{}", json!({"ok": false, "err": format!("reference refused: {}", e)})),
     }
 }
@@ -983,7 +983,7 @@ pub fn gen_chains(sh: &mut Shards, depths: &[usize]) {
         let res: Value = serde_json::from_str(out.trim()).unwrap_or(json!({}));
         sh.count("macro-chains", 1);
         sh.unit(&[json!({"ev":"chain","depth":d,"status":status,"timeout":timeout,"ok":res.get("ok").and_then(|x| x.as_bool()).unwrap_or(false),
-                         "same":res.get("same").and_then(|x| x.as_bool()).unwrap_or(false),"err":res.get("err").cloned().unwrap_or(json!("")),"ms":t0.elapsed().as_millis() as u64})]);
+                         "same":res.get("same").and_then(|x| x.as_bool()).unwrap_or(false),"err":res.get("err").cloned().unwrap_or(json!("")),"deep":res.get("deep").and_then(|x| x.as_bool()).unwrap_or(false),"ms":t0.elapsed().as_millis() as u64})]);
     }
 }
 
